@@ -44,8 +44,9 @@ def runSelector : List String → Option String
     | .error _ => pure "perr"
     | .ok sel =>
       let r := select sel n
-      let r' := resolveSpec sel (some n)
-      pure s!"{resStr r} | {resStr r'}"
+      let r' := resolveSpec false sel (some n)
+      -- third field: the same under the other reading C12 allows for a failing optional slice (Model/Selector.lean: `lenient`)
+      pure s!"{resStr r} | {resStr r'} | {resStr (selectL true sel n)}"
   | _ => none
 
 end Ucan.Driver
